@@ -38,8 +38,13 @@ CONSTANTS Ops,      \* subset of {"count","time","toc","bound","when","toggle"}
                     \*       0: BehaviorSubject, create()-based ...): the window closes at the instant it opened, before
                     \*       anything else, and the next one opens; never two such windows in a row
           Faults,   \* TRUE: the closing mapper may raise at its k-th call (C09 dimension)
-          Disposes  \* TRUE: the subscriber may dispose the result and every window subscription half a tick
+          Disposes, \* TRUE: the subscriber may dispose the result and every window subscription half a tick
                     \*       after instant dsp \in 0..MaxT (C03 dimension)
+          OuterOps  \* families for which (with Disposes) the subscriber may also dispose ONLY the subscription to the
+                    \*       sequence of windows (dmode = "outer": take(1) on the windows, ...) and keep its window
+                    \*       subscriptions: no further window is handed out and the result is silent, but every window
+                    \*       handed out before goes on exactly as its rule dictates (elements, closing instant / count,
+                    \*       source terminal); the source is released when the last of them has ended
 
 INF == H + 1
 Min2(x, y) == IF x <= y THEN x ELSE y
@@ -51,12 +56,12 @@ LastT(s)  == IF Len(s) = 0 THEN 1 ELSE s[Len(s)]
 TermsOf(s, TT) == {[k |-> kk, t |-> tt] : kk \in TT \ {"U"}, tt \in LastT(s)..MaxT}
                   \cup (IF "U" \in TT THEN {[k |-> "U", t |-> INF]} ELSE {})
 
-VARIABLES op, par, src, term, aux, auxterm, dsp,    \* the scenario (dsp = INF: the subscriber never disposes)
+VARIABLES op, par, src, term, aux, auxterm, dsp, dmode,  \* the scenario (dsp = INF: the subscriber never disposes)
           lazy, abandon,                              \* free choices of the model (not part of the scenario)
           i, a, now, step,                            \* agenda position, clock, fired events
           S,                                          \* operator state + observation (a record)
           arr                                         \* ghost: logical arrival instant of each delivered element
-vars == <<op, par, src, term, aux, auxterm, dsp, lazy, abandon, i, a, now, step, S, arr>>
+vars == <<op, par, src, term, aux, auxterm, dsp, dmode, lazy, abandon, i, a, now, step, S, arr>>
 
 (* ---- parameters ------------------------------------------------------------------------- *)
 FaultCalls(n) == IF Faults THEN 0..n ELSE {0}
@@ -137,7 +142,8 @@ StartWhen(Z, t, lt) ==
 NextTimeDue(no, nc) == Min2(no * par.shift, nc * par.shift + par.span)
 
 S0 == [wins |-> <<>>, live |-> <<>>, timers |-> {}, c |-> 0, no |-> 1, nc |-> 0, calls |-> 0,
-       outer |-> <<>>, bufs |-> <<>>, done |-> FALSE, disp |-> FALSE]
+       outer |-> <<>>, bufs |-> <<>>, done |-> FALSE, disp |-> FALSE,
+       odisp |-> FALSE, vis |-> 0]      \* odisp: only the outer subscription was disposed; windows 1..vis were handed out before
 
 \* at the subscription instant
 InitS ==
@@ -202,6 +208,7 @@ Init == /\ op \in Ops
         /\ auxterm \in (IF op \in {"bound", "toggle"} THEN TermsOf(aux, AuxTerms) ELSE {[k |-> "U", t |-> INF]})
         /\ par \in ParamsOf(op, aux)
         /\ dsp \in (IF Disposes THEN 0..MaxT ELSE {}) \cup {INF}
+        /\ dmode \in (IF dsp # INF /\ op \in OuterOps THEN {"all", "outer"} ELSE {"all"})
         /\ lazy \in (IF op = "count" THEN BOOLEAN ELSE {FALSE})
         /\ abandon \in (IF auxterm.k = "E" \/ (op \in {"when", "toggle"} /\ (par.fr # 0 \/ par.ck = "E")) THEN BOOLEAN ELSE {FALSE})
         /\ i = 1 /\ a = 1 /\ now = 0 /\ step = 0 /\ arr = <<>>
@@ -210,14 +217,20 @@ Init == /\ op \in Ops
 SrcDue == IF i <= Len(src) THEN src[i] ELSE IF i = Len(src) + 1 THEN term.t ELSE INF
 AuxDue == IF a <= Len(aux) THEN aux[a] ELSE IF a = Len(aux) + 1 THEN auxterm.t ELSE INF
 MinDue == MinOf({SrcDue, AuxDue} \cup {x.due : x \in S.timers})
-Final  == S.done \/ MinDue > H
+\* after an outer-only dispose: is one of the windows the subscriber holds still open ?
+HeldLive(Z) == \E n \in 1..Len(Z.live) : Z.live[n] <= Z.vis
+\* ... if none is, the last reference is gone and the source is released: nothing more can be observed
+Final  == S.done \/ MinDue > H \/ (S.odisp /\ ~HeldLive(S))
 
 \* the subscriber disposes everything after the events of instant dsp: nothing due later is delivered
-CanFire == ~Final /\ MinDue <= dsp
-Dispose == /\ ~Final /\ dsp < MinDue
-           /\ S' = [S EXCEPT !.done = TRUE, !.disp = TRUE, !.timers = {}]
+\* ... or only the subscription to the sequence of windows: the operator itself goes on (timers included) for the
+\* windows the subscriber holds
+CanFire == ~Final /\ (MinDue <= dsp \/ S.odisp)
+Dispose == /\ ~Final /\ dsp < MinDue /\ ~S.odisp
+           /\ S' = IF dmode = "all" THEN [S EXCEPT !.done = TRUE, !.disp = TRUE, !.timers = {}]
+                    ELSE [S EXCEPT !.odisp = TRUE, !.vis = Len(S.wins)]
            /\ step' = step + 1
-           /\ UNCHANGED <<op, par, src, term, aux, auxterm, dsp, lazy, abandon, i, a, now, arr>>
+           /\ UNCHANGED <<op, par, src, term, aux, auxterm, dsp, dmode, lazy, abandon, i, a, now, arr>>
 
 FireSrc == /\ CanFire /\ SrcDue = MinDue
            /\ now' = MinDue /\ step' = step + 1 /\ i' = i + 1
@@ -226,20 +239,20 @@ FireSrc == /\ CanFire /\ SrcDue = MinDue
                    /\ arr' = Append(arr, 3 * (step + 1) + 1)
               ELSE /\ S' = EndAll(S, term.k, IF term.k = "E" THEN "src" ELSE "", "src", MinDue, 3 * (step + 1))
                    /\ arr' = arr
-           /\ UNCHANGED <<op, par, src, term, aux, auxterm, dsp, lazy, abandon, a>>
+           /\ UNCHANGED <<op, par, src, term, aux, auxterm, dsp, dmode, lazy, abandon, a>>
 
 FireAux == /\ CanFire /\ AuxDue = MinDue
            /\ now' = MinDue /\ step' = step + 1 /\ a' = a + 1
            /\ IF a <= Len(aux) THEN S' = OnAux(S, a, MinDue, step + 1)
               ELSE S' = Fail(S, "aux", MinDue, 3 * (step + 1))   \* the aux lane fails
-           /\ UNCHANGED <<op, par, src, term, aux, auxterm, dsp, lazy, abandon, i, arr>>
+           /\ UNCHANGED <<op, par, src, term, aux, auxterm, dsp, dmode, lazy, abandon, i, arr>>
 
 FireTimer == /\ CanFire
              /\ \E x \in S.timers :
                   /\ x.due = MinDue
                   /\ S' = OnTimer(S, x, MinDue, step + 1)
              /\ now' = MinDue /\ step' = step + 1
-             /\ UNCHANGED <<op, par, src, term, aux, auxterm, dsp, lazy, abandon, i, a, arr>>
+             /\ UNCHANGED <<op, par, src, term, aux, auxterm, dsp, dmode, lazy, abandon, i, a, arr>>
 
 Next == FireSrc \/ FireAux \/ FireTimer \/ Dispose
 Spec == Init /\ [][Next]_vars
@@ -334,12 +347,33 @@ BufOK == /\ Len(WB) = Len(S.bufs)
 
 \* C03 flavour: nothing is handed out or delivered after the dispose instant
 SilentOK == /\ S.disp => (dsp # INF /\ now <= dsp)
-            /\ \A w \in 1..NW : S.wins[w].open <= dsp /\ \A q \in 1..Len(S.wins[w].out) : S.wins[w].out[q].t <= dsp
-            /\ \A q \in 1..Len(S.outer) : S.outer[q].t <= dsp
+            /\ ~S.odisp => /\ \A w \in 1..NW : S.wins[w].open <= dsp /\ \A q \in 1..Len(S.wins[w].out) : S.wins[w].out[q].t <= dsp
+                           /\ \A q \in 1..Len(S.outer) : S.outer[q].t <= dsp
+            \* outer-only dispose: the windows handed out are exactly those opened up to dsp; the result itself is silent
+            /\ S.odisp => /\ dmode = "outer" /\ ~S.disp
+                          /\ \A w \in 1..NW : (w <= S.vis) <=> (S.wins[w].open <= dsp)
+                          /\ \A q \in 1..Len(S.outer) : S.outer[q].t > dsp
+
+\* C18 under an outer-only dispose: a window the subscriber holds is not affected by it - it gets every element that
+\* arrives while it is open (DeliveredOK quantifies over all windows, held ones included) and it is still closed by
+\* its rule: a timed window (time, time-or-count, closing observable) never stays open beyond its closing instant
+HeldOK == S.odisp => \A w \in 1..S.vis : LET W == S.wins[w] IN
+   /\ (op = "toc"  /\ W.cs = 0) => (now <= W.open + par.span /\ Len(ItemsOf(w)) < par.count)
+   /\ (op = "time" /\ W.cs = 0) => now <= W.open + par.span
+   /\ (op = "when" /\ W.cs = 0) => now <= W.open + DurWhen(w)
+   /\ (op = "toggle" /\ W.cs = 0) => now <= W.open + par.durs[w]
+   /\ (W.cs # 0 /\ W.why = "rule" /\ op \in {"toc", "time"}) => LastEv(w).t <= W.open + par.span
+\* windows the subscriber can see, and the instant by which the source subscription must be closed after an
+\* outer-only dispose (Neg1: not within the horizon, or the source ended by itself)
+NVis == IF S.odisp THEN S.vis ELSE NW
+Neg1 == 0 - 1
+Unsub == IF S.odisp /\ ~S.done /\ ~HeldLive(S) THEN (IF now > dsp THEN now ELSE dsp) ELSE Neg1
 
 (* ---- export -------------------------------------------------------------------------------- *)
 Export == Final => PrintT(ToJson(
-   [scn |-> [op |-> op, par |-> par, src |-> src, term |-> term, aux |-> aux, auxterm |-> auxterm, dsp |-> dsp],
-    obs |-> [wins |-> [w \in 1..NW |-> [open |-> S.wins[w].open, out |-> S.wins[w].out]],
-             outer |-> S.outer, bufs |-> S.bufs, disp |-> S.disp]]))
+   [scn |-> [op |-> op, par |-> par, src |-> src, term |-> term, aux |-> aux, auxterm |-> auxterm, dsp |-> dsp,
+             dmode |-> dmode],
+    obs |-> [wins |-> [w \in 1..NVis |-> [open |-> S.wins[w].open, out |-> S.wins[w].out]],
+             outer |-> IF S.odisp THEN <<>> ELSE S.outer, bufs |-> S.bufs, disp |-> S.disp, odisp |-> S.odisp,
+             unsub |-> Unsub]]))
 ================================================================================
